@@ -2,6 +2,7 @@
 # tools_seeded.sh confirm <ID>   : confirm the three claims of a seeded change in its scratch worktree /tmp/mut/<ID>
 # tools_seeded.sh run <dir-with-patch.diff> <PROP> [tier] : apply the patch to /repo, run ./check PROP, undo
 #   (SEEDED_REPO / SEEDED_VERIF select another checkout of the repository / of this directory, for parallel work)
+# tools_seeded.sh runall <dir-with-patch.diff> [tier] : apply the patch, run all 20 checks, list those that report a violation
 set -u
 cmd=$1
 if [ "$cmd" = confirm ]; then
@@ -35,4 +36,20 @@ elif [ "$cmd" = run ]; then
   # rebuild the node from the restored tree (no stale mutated binary)
   [ -z "${SEEDED_NO_RESTORE:-}" ] && ./check --setup >/dev/null 2>&1
   echo "exit=$rc"
+elif [ "$cmd" = runall ]; then
+  D=$(realpath $2); T=${3:-quick}
+  R=${SEEDED_REPO:-/repo}; V=${SEEDED_VERIF:-/verif}
+  cd $V
+  export VERIF_REPO=$R
+  [ -n "$(git -C $R status --porcelain --untracked-files=no)" ] && { echo "$R not clean"; exit 2; }
+  git -C $R apply $D/patch.diff 2>/dev/null || git -C $R apply $D/mutation.diff || { echo "patch does not apply"; exit 2; }
+  caught=""
+  for P in C01 C02 C03 C04 C05 C06 C07 C08 C09 C10 C11 C12 C13 C14 C15 C16 C17 C18 C19 C20; do
+    out=$(./check $P $T 2>&1); rc=$?
+    if [ $rc -eq 1 ]; then caught="$caught $P"; echo "$out" | grep "^violation" | head -2 | cut -c1-220; fi
+    [ $rc -ge 2 ] && echo "$P: harness error ($rc)"
+  done
+  git -C $R checkout -- .
+  [ -z "${SEEDED_NO_RESTORE:-}" ] && ./check --setup >/dev/null 2>&1
+  echo "caught-by:$caught"
 fi
